@@ -189,7 +189,7 @@ class RungeKuttaNystrom(RungeKutta):
                 L.f[m + 1] = P.dtype_f(L.f[0])
             else:
                 if m != self.coll.num_nodes - 1:
-                    L.f[m + 1] = P.eval_f(L.u[m + 1], L.time + L.dt * self.coll.nodes[m])
+                    L.f[m + 1] = P.eval_f(L.u[m + 1], L.time + L.dt * self.coll.nodes[m + 1])
 
         # indicate presence of new values at this level
 
